@@ -72,6 +72,17 @@ def run_history(col, cname, suffix_aware, hist, queries):
             col.violation("set-total", fn + "." + op, ctx, list(r), "no exception")
             return
         ref[key] = value
+        if i + 1 < len(hist):
+            # the same object is also queried BETWEEN the updates: what it answered before an update must not outlive it
+            for q in [x for _, x in hist] + list(queries[:4]):
+                rq = call(stems_fn, q, suffix_aware=suffix_aware)
+                if rq[0] != "ok":
+                    continue
+                exp = ref_lpv(ref, clean(rq[1]))
+                col.count("match-between-updates")
+                r = call(trie.match, q)
+                if r[0] != "ok" or r[1] != exp:
+                    col.violation("match-between-updates", fn + ".match", dict(ctx, query=q, after_step=i), repr(r), exp)
     col.count("len")
     r = call(len, trie)
     if r != ("ok", len(ref)):
